@@ -779,10 +779,6 @@ class C02(CodecProp):
             "(tier 'live'). Non-trivial as C01, plus every unrepresentable input.")
 
     def checker(self, case, vd):
-        if case.get("mode") == "live":
-            from . import sessions
-            sessions.check_live_c02(case, vd)
-            return
         check_c02(case, vd)
 
     def strategy(self, tier):
@@ -792,17 +788,38 @@ class C02(CodecProp):
                          packet_case(BROKER_KINDS, big_ok=False, mode="dec"),
                          unrep_case())
 
+    def _live(self):
+        from . import sessions
+        return sessions.PROPS["C02live"]
+
     def check_case(self, case):
         if isinstance(case, dict) and case.get("mode") == "live":
-            from . import sessions
-            return sessions.PROPS["C02live"].check_case(case["case"])
+            return self._live().check_case(case["case"])
         return CodecProp.check_case(self, case)
 
+    def case_to_json(self, case):
+        if isinstance(case, dict) and case.get("mode") == "live":
+            return {"mode": "live", "case": self._live().case_to_json(case["case"])}
+        return CodecProp.case_to_json(self, case)
+
+    def case_from_json(self, j):
+        if isinstance(j, dict) and j.get("mode") == "live":
+            return {"mode": "live", "case": self._live().case_from_json(j["case"])}
+        return CodecProp.case_from_json(self, j)
+
+    def shrink(self, case, rule):
+        if isinstance(case, dict) and case.get("mode") == "live":
+            return {"mode": "live", "case": self._live().shrink(case["case"], rule)}
+        return CodecProp.shrink(self, case, rule)
+
     def extra_shards(self, tier, seed):
-        return []  # live shards: see sessions
+        return [("live", tier, seed * 1000 + 500 + i) for i in range(8)]
 
     def run_extra(self, spec, res):
         if spec[0] == "live":
-            from . import sessions
-            return sessions.PROPS["C02live"].run_shard(("gen", spec[1], spec[2], None))
+            r = self._live().run_shard(("gen", spec[1], spec[2], None))
+            r.viols = [(rule, wit, {"mode": "live", "case": c}) for (rule, wit, c) in r.viols]
+            r.samples = [{"mode": "live", "case": self._live().case_to_json(c)} for c in r.samples[:1]]
+            r.tiers = type(r.tiers)({"live_sessions": r.evals})
+            return r
         return res
